@@ -26,7 +26,7 @@ TECHNIQUE = "property-based testing: independent numpy reference pipeline + meta
 
 @st.composite
 def strategy(draw):
-    dt = draw(st.sampled_from(gen.DTS))
+    dt = draw(gen.choice(gen.DTS))
     nrec = draw(st.sampled_from([1, 1, 2, 3]))
     equal_len = draw(st.booleans())
     n0 = draw(st.integers(16, 600))
@@ -51,7 +51,8 @@ def strategy(draw):
                 B=draw(st.one_of(gen.signed(0.01, 5), st.sampled_from([1.0, 3.0, -0.5]))),
                 C=draw(gen.signed(0.1, 5)),
                 base=draw(gen.signal_recipe(kinds=("noise", "sines", "chirp", "spikes"), scale_exp=(exp, exp))))
-    return dict(dt=dt, records=recs, spec=spec, k=k, prop=prop)
+    width2 = draw(st.one_of(gen.floats(0.001, 1), st.sampled_from([0.0, 0.5, 1.0])))
+    return dict(dt=dt, records=recs, spec=spec, k=k, prop=prop, width2=width2)
 
 
 def warmup():
@@ -177,6 +178,19 @@ def check_case(case):
                 raise Violation(f"{m}: proportional components A={P['A']}, B={P['B']}, C={P['C']} give {g[0, keep][:3].tolist()}..., "
                                 f"closed form combine(A,B)/|C| = {e!r}", expected=e)
         labels.append("closed-form")
+
+    # (d) same windows, second configuration (other taper width / azimuth) in the same process:
+    #     results must follow the configuration of *this* call (no state carried over between calls)
+    spec2 = dict(spec, width=case["width2"])
+    if "azimuth" in spec2:
+        spec2["azimuth"] = spec2["azimuth"] + 17.0
+    res2, settings2 = _process(hv, arrays, dt, spec2)
+    ref2, amb2 = _reference(arrays, dt, spec2, settings2.fft_settings["n"])
+    for (_, g), (_, r) in zip(_curves(res2, m), ref2):
+        sel = ~amb2 & np.isfinite(r).all(axis=0)
+        if not close(g[:, sel], r[:, sel], rtol=1e-9, atol=0):
+            raise Violation(f"{m}: second call on the same windows with tukey width {case['width2']:.3g} (first call used {spec['width']:.3g}) "
+                            f"does not equal the reference for its own configuration: rel err {rel_err(g[:, sel], r[:, sel]):.3g}")
 
     nonconst = all(np.ptp(c) > 0 for a in arrays for c in a)
     return dict(labels=labels, nontrivial=bool(nonconst and compared > 0))
